@@ -64,6 +64,9 @@ var accelWideShapes = []struct {
 	{`[^x]*(?:€a|₭b)`, []rune{'a', 'b', 'x', '€', '₭', '₮'}},
 	{`\w*(?:é|è)x`, []rune{'a', 'x', 'é', 'è', 'Ã', ' '}},
 	{`(?:éx|èy)z`, []rune{'x', 'y', 'z', 'é', 'è', 'Ã'}},
+	{`\x{ffff}b`, []rune{'b', 'x', 0xffff, 0xfffe}},
+	{`b\x{ffff}`, []rune{'b', 'y', 0xffff, 0xfffe}},
+	{`a\x{ffff}\x{ffff}b`, []rune{'a', 'b', 0xffff}},
 	{`(?i)ǅa`, []rune{'a', 'A', 'ǅ', 'ǆ', 'Ǆ'}},
 	{`(?i)Ⅰb`, []rune{'b', 'B', 'Ⅰ', 'ⅰ'}},
 }
